@@ -5,18 +5,23 @@ import (
 	"crypto/x509"
 	"crypto/x509/pkix"
 	"encoding/asn1"
+	"encoding/json"
 	"fmt"
 	"math/rand"
 	"os"
 	"runtime"
+	"runtime/debug"
+	"sort"
 	"strings"
 	"time"
 
 	"github.com/gr33nbl00d/caddy-revocation-validator/core"
 
 	"verif/harness/derbuild"
+	"verif/harness/origin"
 	"verif/harness/pki"
 	"verif/harness/vk"
+	"verif/harness/world"
 )
 
 // elementOffset: where the element consumed at control state s starts in the built document (-1: not present).
@@ -207,6 +212,7 @@ func C07(c *vk.Ctx) {
 	// 1. every (control state, fault) pair of the model, on documents chosen so that the state is reached
 	type pair struct{ s, f string }
 	seen := map[pair]int{}
+	var hostile [][]byte // the faulty documents of part 1, fed a second time through the whole intake path (part 5)
 	perPair := c.Pick(2, 12)
 	rng.Shuffle(len(cases), func(i, j int) { cases[i], cases[j] = cases[j], cases[i] })
 	for _, rc := range cases {
@@ -235,6 +241,9 @@ func C07(c *vk.Ctx) {
 		path := writeCRL(dir, body)
 		o := feedReader(path)
 		n++
+		if len(hostile) < c.Pick(160, 3000) {
+			hostile = append(hostile, body)
+		}
 		c.Eval(fmt.Sprintf("fault|%s|%s|%s|%s", rc.FaultAt, rc.Fault, sh.Enc, docClass(rc.Doc)))
 		judgeHostile(c, fmt.Sprintf("reader:%s@%s", rc.Fault, rc.FaultAt), fmt.Sprintf("fault %s at control state %s (%s, %s)", rc.Fault, rc.FaultAt, docClass(rc.Doc), sh.Enc), body, o,
 			map[string]any{"doc": rc.Doc, "fault": rc.Fault, "fault_at": rc.FaultAt, "shape": sh, "offset": off})
@@ -251,10 +260,150 @@ func C07(c *vk.Ctx) {
 	n += c07Random(c, rng, dir)
 	// 4. attacker-influenced structures reaching the chain matcher (AKI values, directory names)
 	n += c07SubParsers(c, rng)
+	// 5. the same documents arriving where they arrive in production: at a refresh, while another CRL is in force
+	n += c07Intake(c, cases, hostile, rng)
 	c.Set("traces_validated_against_impl", int64(n))
 	c.Set("spec", "CrlReader.tla with Faulty = TRUE: from every control state every fault class (eof, wrongTag, lenBeyondData, lenBeyondInt, lenIndefinite, lenOversize, lenOverCap, contentUndecodable) leads to Rejected with a bounded allocation; invariants NoPanic, Total, AllocBounded, QuietAfterReject")
-	c.Set("rule", "a case is a byte string fed to the real reader under a 20 s watchdog with recover() and a TotalAlloc delta: (1) each (control state, fault) pair of the model applied at the structural position of that state in a valid document (DER and PEM), (2) every truncation of valid CRLs, (3) seeded random bytes / random edits / PEM armour faults, (4) mutated AKI values and directory names through FindCertificateIssuerCandidates; violation iff panic, no termination, or allocation above 8 MiB + 32 x input length")
+	c.Set("rule", "a case is a byte string fed to the real reader under a 20 s watchdog with recover() and a TotalAlloc delta: (1) each (control state, fault) pair of the model applied at the structural position of that state in a valid document (DER and PEM), (2) every truncation of valid CRLs, (3) seeded random bytes / random edits / PEM armour faults, (4) mutated AKI values and directory names through FindCertificateIssuerCandidates, (5) refreshes of a configured location through the real loader, reader, persisting processor and store of both backends: every (class of the CRL in force) x (class of the document that arrives) over version x crlExtensions kind, and the faulty documents of (1) arriving over a CRL in force of rotating class; violation iff panic, no termination, or allocation above 8 MiB + 32 x input length")
 	c.Assume("memory safety is the Go runtime's; what is decided is panic-freedom, termination and allocation volume")
+}
+
+// c07Intake: the reader is not alone with the bytes. In production a document arrives at a refresh: the loader downloads it, the
+// reader streams it into the persisting processor and a staging store, and what it replaces is a CRL of some other shape (with or
+// without a cRLNumber, v1 or v2, with or without extensions). Whatever arrives over whatever is in force, the pass returns.
+func c07Intake(c *vk.Ctx, cases []rdCase, hostile [][]byte, rng *rand.Rand) int {
+	type class struct{ ver, exts string }
+	byClass := map[class][]rdDoc{}
+	seenDoc := map[string]bool{}
+	for _, rc := range cases {
+		k, _ := json.Marshal(rc.Doc)
+		if seenDoc[string(k)] {
+			continue
+		}
+		seenDoc[string(k)] = true
+		cl := class{rc.Doc.Ver, rc.Doc.Exts}
+		byClass[cl] = append(byClass[cl], rc.Doc)
+	}
+	var classes []class
+	for cl := range byClass {
+		classes = append(classes, cl)
+	}
+	sort.Slice(classes, func(i, j int) bool { return classes[i].ver+"|"+classes[i].exts < classes[j].ver+"|"+classes[j].exts })
+	render := func(cl class, i int) []byte {
+		ds := byClass[cl]
+		d := ds[rng.Intn(len(ds))]
+		sh := readerShapes(c, rng, i)
+		sh.Rep = 1 + rng.Intn(3)
+		sh.Huge = ""
+		b, err := buildAligned(d, sh)
+		if err != nil {
+			return nil
+		}
+		return encode(b.DER, sh.Enc)
+	}
+	n := 0
+	for _, disk := range []bool{false, true} {
+		org := origin.New()
+		path := "/hostile/list.crl"
+		var first []byte
+		for _, cl := range classes {
+			if cl.ver != "v3" && cl.exts == "number" {
+				first = render(cl, 0)
+			}
+		}
+		if first == nil {
+			org.Close()
+			c.Infra("C07 intake: no numbered document class in the export")
+		}
+		org.SetBody(path, first)
+		w, err := world.New(world.Cfg{Mode: "crl_only", Storage: backendName(disk), Sig: "none", Fetch: "fetch_actively", Interval: "1h", CRLUrls: []string{org.URL + path}})
+		if err != nil {
+			c.Infra("world: %v", err)
+		}
+		if err := w.Provision(); err != nil {
+			c.Infra("C07 intake: provision with a valid configured CRL: %v", err)
+		}
+		refresh := func(body []byte, sig, what string, rep map[string]any) bool {
+			org.SetBody(path, body)
+			done := make(chan string, 1)
+			go func() {
+				defer func() {
+					if p := recover(); p != nil {
+						done <- fmt.Sprintf("%v\n%s", p, debug.Stack())
+						return
+					}
+					done <- ""
+				}()
+				w.RefreshAll()
+			}()
+			n++
+			rep["backend"] = backendName(disk)
+			rep["input_len"] = len(body)
+			if len(body) <= 4096 {
+				rep["input_hex"] = fmt.Sprintf("%x", body)
+			}
+			select {
+			case p := <-done:
+				if p != "" {
+					c.Violation("intake:"+sig+":panic", what+": the refresh pass panicked (in production the pass runs on its own goroutine: the process dies): "+p, rep)
+					return false
+				}
+			case <-time.After(60 * time.Second):
+				c.Violation("intake:"+sig+":no-termination", what+": the refresh pass did not return within 60 s", rep)
+				c.Finish()
+				os.Exit(vk.ExitViol)
+			}
+			return true
+		}
+		ok := true
+		// (in force, arriving) over the classes; only a document the reader accepts can be in force
+		for _, a := range classes {
+			if a.ver == "v3" || a.exts == "crit" {
+				continue
+			}
+			for _, b := range classes {
+				if !ok || c.Violations() > 12 {
+					break
+				}
+				ba, bb := render(a, n), render(b, n+1)
+				if ba == nil || bb == nil {
+					continue
+				}
+				rep := map[string]any{"in_force": a, "arriving": b}
+				c.Eval(fmt.Sprintf("intake|%s|%v|%v", backendName(disk), a, b))
+				ok = refresh(ba, fmt.Sprintf("inforce=%s/%s", a.ver, a.exts), fmt.Sprintf("a valid CRL of class %v arrives at a refresh", a), rep) &&
+					refresh(bb, fmt.Sprintf("inforce=%s/%s:arriving=%s/%s", a.ver, a.exts, b.ver, b.exts), fmt.Sprintf("a CRL of class %v arrives at a refresh while one of class %v is in force", b, a), rep)
+			}
+		}
+		// the faulty documents of part 1 over a CRL in force whose class rotates
+		var accepted []class
+		for _, a := range classes {
+			if a.ver != "v3" && a.exts != "crit" {
+				accepted = append(accepted, a)
+			}
+		}
+		for i, body := range hostile {
+			if !ok || c.Violations() > 12 {
+				break
+			}
+			a := accepted[(i/8)%len(accepted)]
+			if i%8 == 0 {
+				if ba := render(a, n); ba != nil {
+					ok = refresh(ba, fmt.Sprintf("inforce=%s/%s", a.ver, a.exts), fmt.Sprintf("a valid CRL of class %v arrives at a refresh", a), map[string]any{"in_force": a})
+				}
+			}
+			if ok {
+				c.Eval(fmt.Sprintf("intake-fault|%s|%d", backendName(disk), i))
+				ok = refresh(body, fmt.Sprintf("inforce=%s/%s:arriving=faulty", a.ver, a.exts), fmt.Sprintf("a faulty document arrives at a refresh while a CRL of class %v is in force", a), map[string]any{"in_force": a, "hostile_index": i})
+			}
+		}
+		func() {
+			defer func() { recover() }()
+			w.Destroy()
+		}()
+		org.Close()
+	}
+	return n
 }
 
 func validSamples(rng *rand.Rand) [][]byte {
